@@ -241,7 +241,7 @@ func descKey(d *DescC19) string {
 var propC19 = hx.Register(hx.Prop[CaseC19]{ID: "C19", Gen: genC19, Check: checkC19})
 
 func c19Rule() {
-	hx.Rec("C19").SetRule("rapid cases: three descriptors (named or arbitrary type, event id in 1..3, signal with PTS in {1000,2000,2^33-1} or without PTS, segment number/expected in 0..2, sub-segment fields for 0x34/0x36), the second and third derived from the first with at most one compared attribute changed half of the time, ALL other descriptor fields drawn freely (flags, components, duration, UPID/MID), each realised either through the creation API or by decoding a reference encoding; CanClose on all 9 ordered pairs vs the hand-transcribed rule table, IsIn/IsOut vs the documented lists, Equal vs its definition, symmetry, transitivity and congruence on the triple. Enumerated: all 256x256 type pairs x event-equal x PTS-equal x (segment number = expected) x incoming has sub-segments (65536 x 16), IsIn/IsOut for all 256 types, and all ordered pairs of a 720-descriptor family for the equality laws. Non-trivial: a pair with a table entry, or an equal pair.",
+	hx.Rec("C19").SetRule("rapid cases: three descriptors (named or arbitrary type, event id in 1..3, signal with PTS in {1000,2000,2^33-1} or without PTS, segment number/expected in 0..2, sub-segment fields for 0x34/0x36), the second and third derived from the first with at most one compared attribute changed half of the time, ALL other descriptor fields drawn freely (flags, components, duration, UPID/MID), each realised either through the creation API or by decoding a reference encoding; CanClose on all 9 ordered pairs vs the hand-transcribed rule table (also with the argument wrapped in a decorator type that embeds the interface), IsIn/IsOut vs the documented lists, Equal vs its definition, symmetry, transitivity and congruence on the triple. Enumerated: all 256x256 type pairs x event-equal x PTS-equal x (segment number = expected) x incoming has sub-segments (65536 x 16), IsIn/IsOut for all 256 types, and all ordered pairs of a 720-descriptor family for the equality laws. Non-trivial: a pair with a table entry, or an equal pair.",
 		"the rule table is a transcription of the pinned commit's documented rules (the property is defined relative to it)",
 		"the DiffPTS rule is only asserted when both signals carry a PTS")
 }
